@@ -129,6 +129,141 @@ func Gapply[X any](x X, f func(X) X) X {
 	return r
 }
 
+
+// ---- values of several words: structs and arrays passed, returned, merged and stored BY VALUE
+type S2 struct{ p, q *T }
+type Arr [2]*T
+type Opts struct{ a, b *T }
+
+func pickS(a, b S2) S2 {
+	enter("pickS")
+	r := a
+	if cond() {
+		r = b
+	}
+	return r
+}
+
+func pickA(a, b Arr) Arr {
+	enter("pickA")
+	r := a
+	if cond() {
+		r = b
+	}
+	return r
+}
+
+func pickO(o Opts) *T {
+	enter("pickO")
+	if cond() {
+		return o.a
+	}
+	return o.b
+}
+
+func swapS(s S2) S2 {
+	enter("swapS")
+	return S2{p: s.q, q: s.p}
+}
+
+type Pk interface {
+	pick(o Opts) *T
+	pickArr(o Arr) *T
+	mk(x, y *T) Opts
+}
+
+type PA struct{ t *T }
+
+func (p *PA) pick(o Opts) *T {
+	enter("PA.pick")
+	if cond() {
+		return o.a
+	}
+	return o.b
+}
+func (p *PA) pickArr(o Arr) *T {
+	enter("PA.pickArr")
+	if cond() {
+		return o[0]
+	}
+	return o[1]
+}
+func (p *PA) mk(x, y *T) Opts {
+	enter("PA.mk")
+	p.t = x
+	return Opts{a: x, b: y}
+}
+
+type PB struct {
+	k int
+	t *T
+}
+
+func (p PB) pick(o Opts) *T {
+	enter("PB.pick")
+	if cond() {
+		return o.b
+	}
+	return o.a
+}
+func (p PB) pickArr(o Arr) *T {
+	enter("PB.pickArr")
+	return o[p.k&1]
+}
+func (p PB) mk(x, y *T) Opts {
+	enter("PB.mk")
+	return Opts{a: y, b: x}
+}
+
+// ---- value-receiver method whose receiver carries callables; reached through interfaces holding *V (synthetic pointer
+// wrapper (*V).run with ssa:wrapnilchk), holding V, and through the method expressions (*V).run / V.run
+type V struct {
+	f func(*T) *T
+	i I
+	t *T
+}
+
+func (v V) run(x *T) *T {
+	enter("V.run")
+	r := x
+	if v.f != nil {
+		cs(2)
+		r = v.f(x)
+		cs(-1)
+	}
+	if v.i != nil && cond() {
+		cs(3)
+		r = v.i.M(x)
+		cs(-1)
+	}
+	if r == nil {
+		r = x
+	}
+	return r
+}
+
+type R interface{ run(x *T) *T }
+
+// ---- mutually referencing types holding callables; pair A is always allocated tree-first, pair B node-first
+type treeA struct {
+	root *nodeA
+	n    int
+}
+type nodeA struct {
+	owner *treeA
+	visit func(*T) *T
+	it    I
+}
+type treeB struct {
+	root *nodeB
+	n    int
+}
+type nodeB struct {
+	owner *treeB
+	visit func(*T) *T
+	it    I
+}
+
 var out *bufio.Writer
 var cur = -1
 var bits uint
@@ -187,14 +322,16 @@ func siteC(id int, c chan *T)        { fmt.Fprintf(out, "A %d C %p 1\n", id, c) 
 class Gen:
     """one program: helper functions, recursive functions, scenario functions s0..sN-1, main"""
 
-    def __init__(self, seed, nscen, nhelp=6, exotic=True):
+    def __init__(self, seed, nscen, nhelp=6, exotic=True, nvscen=None):
         self.rnd = vlib.lcg(seed)
         self.nscen = nscen
+        self.nvscen = (nscen * 3) // 5 if nvscen is None else nvscen
         self.nhelp = nhelp
         self.exotic_ok = exotic
-        self.ids = {"probe": 0, "site": 0, "cs": 1}     # cs 1 is used by Gapply
+        self.ids = {"probe": 0, "site": 0, "cs": 3}     # cs 1 is used by Gapply, 2 and 3 by V.run
         self.lines = []
-        self.meta = {"probes": {}, "sites": {}, "cs": {1: ("Gapply", "dyn")}, "features": {}}
+        self.meta = {"probes": {}, "sites": {}, "cs": {1: ("Gapply", "dyn"), 2: ("V.run", "funcvalue-recvfield"),
+                                                       3: ("V.run", "invoke-recvfield")}, "features": {}}
 
     def nid(self, k):
         self.ids[k] += 1
@@ -604,10 +741,209 @@ class Gen:
         self.meta["features"]["exotic_scenarios"] = self.meta["features"].get("exotic_scenarios", 0) + (1 if exotic else 0)
         return L
 
+    def scenario_b(self, k):
+        """value-heavy scenarios (outside the muSSA fragment): struct/array values through phis, by-value parameters and
+        results on static/closure/bound/interface calls, multi-word values in channels/maps/slices, value-receiver methods
+        behind pointer-holding interfaces and method expressions with callbacks in the receiver, mutually recursive types"""
+        rnd = self.rnd
+        L = []
+        name = "v%d" % k
+        em = L.append
+        em("func %s() {" % name)
+        em('\tenter("%s")' % name)
+        cnt = [0]
+
+        def alloc(kind, expr, ind="\t"):
+            i = self.nid("site")
+            self.meta["sites"][i] = kind
+            v = "n%d" % i
+            em("%s%s := %s" % (ind, v, expr))
+            em("%ssite%s(%d, %s)" % (ind, kind, i, v))
+            return v
+
+        tv = ["t%d" % i for i in range(4)]
+        em("\tfb := %s" % alloc("T", "&T{a: 99}"))
+        for i, v in enumerate(tv):
+            em("\t%s := %s" % (v, alloc("T", "&T{a: %d}" % i)))
+        em("\tsA := S2{p: t0, q: t1}")
+        em("\tsB := S2{p: t2, q: t3}")
+        em("\tvar pk Pk = &PA{t: t0}")
+        em("\tvar rr R = &V{t: t0}")
+        em("\tchS := make(chan S2, 4)")
+        em("\tmS := map[string]S2{}")
+        em("\tslS := make([]S2, 2)")
+        em("\tslS[0], slS[1] = sA, sB")
+        em("\tfo := func(o Opts) *T { return o.a }")
+        em("\tvar x0 I = &A{t: t1}")
+
+        def T():
+            return self.pick(tv)
+
+        def fix(v, ind):
+            em("%sif %s == nil {\n%s\t%s = fb\n%s}" % (ind, v, ind, v, ind))
+
+        def call(ind, kind, stmt):
+            i = self.nid("cs")
+            self.meta["cs"][i] = (name, kind)
+            self.feat("call:" + kind)
+            em("%scs(%d)" % (ind, i))
+            em("%s%s" % (ind, stmt))
+            em("%scs(-1)" % ind)
+
+        def fresh():
+            cnt[0] += 1
+            return cnt[0]
+
+        def funclit(ind, cap=None):
+            """a function literal reachable only through the place it is stored in"""
+            n = fresh()
+            tag = "%s$%d" % (name, n)
+            if cap is None or rnd(2):
+                return "func(q *T) *T {\n%s\tenter(\"%s\")\n%s\treturn q\n%s}" % (ind, tag, ind, ind)
+            return "func(q *T) *T {\n%s\tenter(\"%s\")\n%s\tq.next = %s\n%s\treturn %s\n%s}" % (ind, tag, ind, cap, ind, cap, ind)
+
+        def probes(ind):
+            for v in tv:
+                if rnd(3):
+                    i = self.nid("probe")
+                    self.meta["probes"][i] = "T"
+                    em("%sprobeT(%d, %s)" % (ind, i, v))
+
+        def stmt(ind, depth):
+            c = rnd(30)
+            x, y, z = T(), T(), T()
+            if c == 0:
+                call(ind, "static-byvalue", "%s = pickS(S2{p: %s, q: %s}, S2{p: %s, q: fb}).p" % (x, y, z, z)); self.feat("phi-struct")
+            elif c == 1:
+                call(ind, "static-byvalue", "%s = pickA(Arr{%s, %s}, Arr{%s, %s})[1]" % (x, y, z, z, y)); self.feat("phi-array")
+            elif c == 2:
+                em("%ssA = S2{p: %s, q: %s}" % (ind, y, z))
+                em("%sif cond() {\n%s\tsA = sB\n%s}" % (ind, ind, ind))
+                em("%s%s = sA.q" % (ind, x)); self.feat("phi-struct-inline")
+            elif c == 3:
+                call(ind, "static-byvalue", "sB = pickS(sA, swapS(sB))")
+                em("%s%s = sB.p" % (ind, x)); self.feat("phi-struct")
+            elif c == 4:
+                call(ind, "invoke-byvalue", "%s = pk.pick(Opts{a: %s, b: %s})" % (x, y, z))
+            elif c == 5:
+                call(ind, "invoke-byvalue", "%s = pk.pickArr(Arr{%s, %s})" % (x, y, z))
+            elif c == 6:
+                n = fresh()
+                call(ind, "invoke-byvalue-result", "o%d := pk.mk(%s, %s)" % (n, y, z))
+                em("%s%s = o%d.%s" % (ind, x, n, self.pick("ab")))
+            elif c == 7:
+                w = rnd(4)
+                em("%spk = %s" % (ind, ["&PA{t: %s}" % y, "PB{k: 1, t: %s}" % y, "&PB{k: 2, t: %s}" % y, "&PA{}"][w])); self.feat("makeinterface-multiword")
+            elif c == 8:
+                call(ind, "static-byvalue", "%s = pickO(Opts{a: %s, b: %s})" % (x, y, z))
+            elif c == 9:
+                n = fresh()
+                em('%sfo = func(o Opts) *T {\n%s\tenter("%s$%d")\n%s\tif cond() {\n%s\t\treturn o.b\n%s\t}\n%s\treturn o.a\n%s}' %
+                   (ind, ind, name, n, ind, ind, ind, ind, ind))
+                call(ind, "closure-byvalue", "%s = fo(Opts{a: %s, b: %s})" % (x, y, z))
+                if rnd(2):
+                    n2 = fresh()
+                    em('%sfr%d := func(a, b *T) S2 {\n%s\tenter("%s$%d")\n%s\treturn S2{p: b, q: a}\n%s}' % (ind, n2, ind, name, n2, ind, ind))
+                    call(ind, "closure-byvalue-result", "sB = fr%d(%s, %s)" % (n2, y, z))
+                    em("%s%s = sB.%s" % (ind, x, self.pick("pq")))
+            elif c == 10:
+                n = fresh()
+                w = rnd(3)
+                if w == 0:
+                    em("%sbm%d := pk.pick" % (ind, n))
+                elif w == 1:
+                    em("%sbm%d := (&PA{t: %s}).pick" % (ind, n, y))
+                else:
+                    em("%sbm%d := PB{k: 1}.pick" % (ind, n))
+                call(ind, "bound-byvalue", "%s = bm%d(Opts{a: %s, b: %s})" % (x, n, y, z))
+            elif c == 11:
+                em("%sif len(chS) < cap(chS) {\n%s\tchS <- S2{p: %s, q: %s}\n%s}" % (ind, ind, y, z, ind))
+                n = fresh()
+                em("%sif len(chS) > 0 {\n%s\tcv%d := <-chS\n%s\t%s = cv%d.%s\n%s}" % (ind, ind, n, ind, x, n, self.pick("pq"), ind))
+                self.feat("chan-multiword")
+            elif c == 12:
+                em('%smS["%s"] = S2{p: %s, q: %s}' % (ind, self.pick("ab"), y, z))
+                em('%s%s = mS["%s"].%s' % (ind, x, self.pick("ab"), self.pick("pq"))); fix(x, ind); self.feat("map-multiword")
+            elif c == 13:
+                em("%sslS[%d] = S2{p: %s, q: %s}" % (ind, rnd(2), y, z))
+                em("%s%s = slS[%d].%s" % (ind, x, rnd(2), self.pick("pq"))); self.feat("slice-multiword")
+            elif c == 14:
+                em("%sfor _, sv := range slS {\n%s\tif sv.p != nil && cond() {\n%s\t\t%s = sv.p\n%s\t}\n%s}" % (ind, ind, ind, x, ind, ind)); self.feat("range-multiword")
+            elif c in (15, 16):
+                w = rnd(3)
+                flit = funclit(ind, y)
+                if w == 0:
+                    em("%srr = &V{f: %s, i: x0, t: %s}" % (ind, flit, z))
+                elif w == 1:
+                    em("%srr = V{f: %s, t: %s}" % (ind, flit, z))
+                else:
+                    em("%srr = &V{f: k%d, i: &A{t: %s}}" % (ind, rnd(self.nhelp), y))
+                call(ind, "invoke-valuerecv", "%s = rr.run(%s)" % (x, z)); self.feat("wrapnilchk-iface")
+            elif c == 17:
+                n = fresh()
+                flit = funclit(ind, y)
+                em("%smv%d := (*V).run" % (ind, n))
+                call(ind, "method-expr-ptr-valuerecv", "%s = mv%d(&V{f: %s, i: x0}, %s)" % (x, n, flit, z)); self.feat("wrapnilchk-methodexpr")
+            elif c == 18:
+                n = fresh()
+                flit = funclit(ind, y)
+                em("%smw%d := V.run" % (ind, n))
+                call(ind, "method-expr-valuerecv", "%s = mw%d(V{f: %s}, %s)" % (x, n, flit, z))
+            elif c == 19:
+                n = fresh()
+                em("%svb%d := (&V{f: %s}).run" % (ind, n, funclit(ind, y)))
+                call(ind, "bound-valuerecv", "%s = vb%d(%s)" % (x, n, z))
+            elif c in (20, 21):
+                n = fresh()
+                em("%str%d := &treeA{n: %d}" % (ind, n, n))
+                em("%snd%d := &nodeA{owner: tr%d, visit: %s, it: x0}" % (ind, n, n, funclit(ind, y)))
+                em("%str%d.root = nd%d" % (ind, n, n))
+                call(ind, "funcvalue-rectype-treefirst", "%s = tr%d.root.visit(%s)" % (x, n, z))
+                if rnd(2):
+                    call(ind, "invoke-rectype-treefirst", "%s = nd%d.owner.root.it.M(%s)" % (x, n, z)); fix(x, ind)
+                self.feat("rectype-A")
+            elif c in (22, 23):
+                n = fresh()
+                em("%snd%d := &nodeB{visit: %s, it: x0}" % (ind, n, funclit(ind, y)))
+                em("%str%d := &treeB{root: nd%d}" % (ind, n, n))
+                em("%snd%d.owner = tr%d" % (ind, n, n))
+                call(ind, "funcvalue-rectype-nodefirst", "%s = tr%d.root.visit(%s)" % (x, n, z))
+                if rnd(2):
+                    call(ind, "invoke-rectype-nodefirst", "%s = nd%d.owner.root.it.M(%s)" % (x, n, z)); fix(x, ind)
+                self.feat("rectype-B")
+            elif c == 24:
+                em("%sx0 = %s" % (ind, self.pick(["&A{t: %s}" % y, "D{t: %s}" % y, "B{t: %s, k: 2}" % y])))
+            elif c == 25 and depth < 2:
+                em("%sif cond() {" % ind)
+                for _ in range(1 + rnd(3)):
+                    stmt(ind + "\t", depth + 1)
+                em("%s}" % ind)
+            elif c == 26 and depth < 2:
+                em("%sfor it := 0; it < 2; it++ {" % ind)
+                for _ in range(1 + rnd(2)):
+                    stmt(ind + "\t", depth + 1)
+                em("%s}" % ind)
+            elif c == 27:
+                em("%s%s.next = %s" % (ind, x, y))
+            elif c == 28:
+                em("%s%s = %s" % (ind, x, alloc("T", "&T{next: %s}" % y, ind)))
+            else:
+                probes(ind)
+
+        for _ in range(8 + rnd(8)):
+            stmt("\t", 0)
+        probes("\t")
+        for v in tv + ["fb", "sA", "sB", "pk", "rr", "chS", "mS", "slS", "fo", "x0"]:
+            em("\t_ = %s" % v)
+        em("}")
+        return L
+
     def program(self, nval=6):
         self.helpers()
         for k in range(self.nscen):
             self.lines.extend(self.scenario(k))
+        for k in range(self.nvscen):
+            self.lines.extend(self.scenario_b(k))
         L = self.lines
         L.append("func main() {")
         L.append("\tsetup()")
@@ -615,6 +951,8 @@ class Gen:
         L.append("\t\tsetbits(v)")
         for k in range(self.nscen):
             L.append("\t\ts%d()" % k)
+        for k in range(self.nvscen):
+            L.append("\t\tv%d()" % k)
         L.append("\t}")
         L.append("\tflush()")
         L.append("}")
@@ -664,7 +1002,8 @@ def parse_native(text):
 
 
 def parse_dump(text):
-    d = {"fn": {}, "site": {}, "probe": {}, "q": {}, "cs": {}, "edges": {}, "res": {}, "ma": {}, "noeff": [], "tags": {}}
+    d = {"fn": {}, "site": {}, "probe": {}, "q": {}, "cs": {}, "edges": {}, "res": {}, "ma": {}, "noeff": [], "tags": {},
+         "cgo_fn": {}, "cgo_edges": {}, "cgo_tags": {}}
     for l in text.splitlines():
         p = l.split(" ")
         k = p[0]
@@ -672,6 +1011,12 @@ def parse_dump(text):
             d["fn"][p[1]] = {"kind": p[2], "tag": p[3], "reach": p[4] == "1"}
             if p[3] != "-":
                 d["tags"].setdefault(p[3], []).append(p[1])
+        elif k == "CGOFN":
+            d["cgo_fn"][p[1]] = {"kind": p[2], "tag": p[3], "reach": p[4] == "1"}
+            if p[3] != "-":
+                d["cgo_tags"].setdefault(p[3], []).append(p[1])
+        elif k == "CGOEDGE":
+            d["cgo_edges"].setdefault(p[1], []).append((p[2], p[3]))
         elif k == "SITE":
             d["site"][int(p[1])] = p[3]
         elif k == "PROBE":
@@ -721,7 +1066,7 @@ def prepare(work, seed, tier, want_mu=True):
     vlib.build_harness(["c11dump"])
     exe = os.path.join(vlib.BIN, "c11dump")
     stamp = _sha(exe)
-    nprog, nscen = (1, 40) if tier == "quick" else (10, 40)   # one load of the std library per program dominates the cost
+    nprog, nscen = (2, 40) if tier == "quick" else (10, 40)   # one load of the std library per program dominates the cost
     os.makedirs(work, exist_ok=True)
     progs = []
     for k in range(nprog):
@@ -750,7 +1095,7 @@ def prepare(work, seed, tier, want_mu=True):
             open(gs, "w").write(gstamp)
         if not (os.path.exists(st) and open(st).read() == stamp + gstamp):
             cmd = [exe, "-repo", vlib.REPO, "-o", os.path.join(d, "dump.txt"), "-pairs", os.path.join(d, "pairs.txt"),
-                   "-cg", os.path.join(d, "cg.txt")]
+                   "-cg", os.path.join(d, "cg.txt"), "-cgonly"]
             if want_mu:
                 cmd += ["-mu", os.path.join(d, "prog.mu")]
             rc, out, err = vlib.sh2(cmd + [d], timeout=1500)
@@ -840,7 +1185,7 @@ def check_points_to(pr):
     return st, fails
 
 
-def _reaches_tag(dump, start, tag, through_synth_only=True):
+def _reaches_tag(dump, start, tag, fnk="fn", edk="edges"):
     """callee `start` is tagged `tag`, or is a synthetic wrapper forwarding (through wrappers only) to a function tagged so"""
     seen = set()
     todo = [start]
@@ -849,15 +1194,46 @@ def _reaches_tag(dump, start, tag, through_synth_only=True):
         if f in seen:
             continue
         seen.add(f)
-        info = dump["fn"].get(f)
+        info = dump[fnk].get(f)
         if info is None:
             continue
         if info["tag"] == tag:
             return True
         if info["kind"] == "synth":
-            for _site, callee in dump["edges"].get(f, []):
+            for _site, callee in dump[edk].get(f, []):
                 todo.append(callee)
     return False
+
+
+def check_calls_cgonly(pr):
+    """the same native call events against the call-graph-only entry point (PointerAnalysis.ComputeCallgraph, no queries:
+    what `argot render`/`compare` use): edge at the site, callee reachable"""
+    nat, dump, meta = pr["native"], pr["dump"], pr["meta"]
+    st = {"cgonly_call_events": 0, "cgonly_entered_tags": 0}
+    fails = []
+    if not dump["cgo_fn"]:
+        return st, fails
+    kinds = {int(k): v for k, v in meta["cs"].items()}
+    for tag in sorted(nat["entered"]):
+        st["cgonly_entered_tags"] += 1
+        fns = dump["cgo_tags"].get(tag, [])
+        if not any(dump["cgo_fn"][f]["reach"] for f in fns):
+            fails.append(("cgonly-reach", "function tagged %s was executed but is not reachable in the call graph computed by "
+                          "PointerAnalysis.ComputeCallgraph (no queries)" % tag))
+    for cs, tag in sorted(nat["events"]):
+        st["cgonly_call_events"] += 1
+        ck = kinds.get(cs, ("?", "?"))[1]
+        sites = dump["cs"].get(cs) or []
+        ok = False
+        for caller, ikey in sites:
+            for site, callee in dump["cgo_edges"].get(caller, []):
+                if site == ikey and _reaches_tag(dump, callee, tag, "cgo_fn", "cgo_edges"):
+                    ok = True
+        if not ok and sites:
+            fails.append(("cgonly-edge:" + ck, "call site %d (%s, %s) called %s at run time; the call graph computed by "
+                          "PointerAnalysis.ComputeCallgraph (no queries) has no edge for it there (edges at the site: %s)" %
+                          (cs, ck, sites[0][1], tag, sorted(c for s0, c in dump["cgo_edges"].get(sites[0][0], []) if s0 == sites[0][1]))))
+    return st, fails
 
 
 def check_calls(pr):
@@ -1187,6 +1563,9 @@ def common(chk, want):
                     distinct.add((k, "ps", pid, sid))
         else:
             st, fails = check_calls(pr)
+            st5, fails5 = check_calls_cgonly(pr)
+            st.update(st5)
+            fails += fails5
             if model_ok:
                 st4, diff = tie_reach_closure(pr)
                 st.update(st4)
